@@ -61,6 +61,17 @@ def run(ck: vlib.Check):
                          {"kind": "roundtrip", "label": label, "input_hex": small.hex(),
                           "result": describe(S.impl_roundtrip(small))}, True)
             break
+    # one ChkIo object for a whole session, with FAILING calls in between (a decode of garbage; an encode that raises
+    # after some sections were already written): every later call must answer as a fresh object does
+    sess = session_results([b for _, b, _ in cases[:len(impl_rt)]])
+    ck.evaluations += len(sess)
+    for (label, b, _), fresh, s_ in zip(cases, impl_rt, sess):
+        if s_ != fresh:
+            ck.violation(f"one ChkIo object used for a session (with failing calls in between) answers differently from a "
+                         f"fresh object on {label}",
+                         {"kind": "session", "label": label, "input_hex": b.hex() if len(b) < 200000 else None,
+                          "fresh": describe(fresh), "session": describe(s_)}, True)
+            break
     ck.extra["section_kind_distribution"] = dist
     ck.extra["sizes"] = {"min": min(len(c[1]) for c in cases), "max": max(len(c[1]) for c in cases),
                          "mean": sum(len(c[1]) for c in cases) // len(cases)}
@@ -86,6 +97,31 @@ def run(ck: vlib.Check):
             ck.notes.append(f"first decode mismatch {sub[i][0]}: input {sub[i][1][:64].hex()}")
         ck.sample({"input_hex": cases[-1][1][:80].hex(), "kinds": cases[-1][2], "roundtrip_equal": True})
         ck.sample({"input": cases[0][0], "bytes": len(cases[0][1])})
+
+
+def failing_decoded_chk():
+    """a decoded CHK whose SECOND section cannot be written (a switch string id beyond u32): the encode raises after
+    the first section has been encoded"""
+    import dataclasses
+    good = S.frame(b"VER ", b"\xcd\x00") + S.frame(b"SWNM", bytes(1024))
+    d = S.impl_decode(good)
+    secs = list(d.decoded_chk_sections)
+    secs[1] = dataclasses.replace(secs[1], _switch_string_ids=[2 ** 40] * 256)
+    return dataclasses.replace(d, _decoded_chk_sections=secs)
+
+
+def session_results(inputs):
+    from richchk.io.chk.chk_io import ChkIo
+    io = ChkIo()
+    bad = failing_decoded_chk()
+    out = []
+    for i, b in enumerate(inputs):
+        if i % 3 == 0:
+            vlib.impl_result(lambda: io.encode_chk_to_bytes(bad))
+        if i % 5 == 0:
+            vlib.impl_result(lambda: io.decode_chk_binary_data(b"STR \xff\xff\xff\x7fxx"))
+        out.append(vlib.impl_result(lambda: list(io.encode_chk_to_bytes(io.decode_chk_binary_data(b)))))
+    return out
 
 
 def describe(r):
@@ -121,6 +157,11 @@ def shrink_chunks(b: bytes) -> bytes:
 def replay(path: str) -> int:
     rp = json.loads(Path(path).read_text())
     print("replaying:", rp.get("what"))
+    if rp.get("kind") == "session" and rp.get("input_hex"):
+        b = bytes.fromhex(rp["input_hex"])
+        bad = session_results([b]) != [S.impl_roundtrip(b)]
+        print("still differs from a fresh object" if bad else "no longer differs")
+        return 1 if bad else 0
     if "input_hex" in rp:
         b = bytes.fromhex(rp["input_hex"])
         r = S.impl_roundtrip(b)
